@@ -106,6 +106,7 @@ class Env:
         self.ctxs: Dict[int, Any] = {}
         self.no_requeue = False
         self.late_task: Any = None
+        self.late_mws: List[Any] = []
         self.abort = False
         self.closed = False
 
@@ -695,7 +696,9 @@ def run(scn: Dict[str, Any]) -> List[Dict[str, Any]]:
             return _run_inmem(scn, cfg, loop, env)
         broker = ScriptedBroker(env)
         broker.result_backend = RecordingBackend(env)
-        mw_objs = [make_middleware(env, idx, spec) for idx, spec in enumerate(cfg.get("mws") or [], start=1)]
+        all_mws = [(spec, make_middleware(env, idx, spec)) for idx, spec in enumerate(cfg.get("mws") or [], start=1)]
+        mw_objs = [o for sp, o in all_mws if not sp.get("late")]
+        env.late_mws = [o for sp, o in all_mws if sp.get("late")]         # registered by the "register" step
         if mw_objs:
             broker.add_middlewares(mw_objs[0])            # both registration styles, one after the other
             if len(mw_objs) > 1:
@@ -883,6 +886,9 @@ def _play(scn: Dict[str, Any], loop: VLoop, env: Env, broker: "ScriptedBroker", 
             elif op == "register":
                 # (re-)registration while the worker runs; a name that was served by a plain function before is now a coroutine
                 broker.register_task(env.late_task, task_name="tlate")
+                for mw_late in env.late_mws:
+                    broker.add_middlewares(mw_late)
+                env.late_mws = []
                 env.rec("noop", s="register")
             elif op == "settle":
                 loop.settle()
